@@ -224,6 +224,45 @@ func (c *Ctx) MarshalerContract() []core.Ob {
 		for _, ci := range decs {
 			dec := ci.Common().Args[0]
 			cl, ok := dec.(*ssa.Call)
+			// the function that builds the decoder, and what the tag / reader parameters are called there
+			scope := fn
+			tagV, rV := ssa.Value(fn.Params[1]), ssa.Value(fn.Params[2])
+			if ok && !strings.HasSuffix(calleeName(cl.Common()), "/nbt.NewDecoder") {
+				// a helper that builds it: newTagDecoder(tagType, r)
+				if g := cl.Common().StaticCallee(); g != nil && c.P.InModule(g) && len(g.Blocks) > 0 {
+					var inner *ssa.Call
+					n := 0
+					for _, b := range g.Blocks {
+						for _, in := range b.Instrs {
+							if r, isRet := in.(*ssa.Return); isRet && len(r.Results) == 1 {
+								n++
+								if ic, isCall := r.Results[0].(*ssa.Call); isCall && strings.HasSuffix(calleeName(ic.Common()), "/nbt.NewDecoder") {
+									inner = ic
+								} else {
+									inner = nil
+								}
+							}
+						}
+					}
+					if n == 1 && inner != nil {
+						var nt, nr ssa.Value
+						for i, a := range cl.Common().Args {
+							if i >= len(g.Params) {
+								break
+							}
+							if a == tagV {
+								nt = g.Params[i]
+							}
+							if a == rV {
+								nr = g.Params[i]
+							}
+						}
+						if nt != nil && nr != nil {
+							cl, scope, tagV, rV = inner, g, nt, nr
+						}
+					}
+				}
+			}
 			if !ok || !strings.HasSuffix(calleeName(cl.Common()), "/nbt.NewDecoder") {
 				o.Status, o.Got = core.Violated, "Decode on a decoder of unknown origin"
 				continue
@@ -250,10 +289,10 @@ func (c *Ctx) MarshalerContract() []core.Ob {
 					return
 				}
 				seen[v] = true
-				if v == ssa.Value(fn.Params[1]) {
+				if v == tagV {
 					usesTag = true
 				}
-				if v == ssa.Value(fn.Params[2]) {
+				if v == rV {
 					usesR = true
 				}
 				if in, ok := v.(ssa.Instruction); ok {
@@ -284,9 +323,11 @@ func (c *Ctx) MarshalerContract() []core.Ob {
 			}
 			walk(mr.Common().Args[0], 0)
 			nf := false
-			for _, n := range callsIn(fn, func(n string, _ *ssa.CallCommon) bool { return strings.HasSuffix(n, "/nbt.(Decoder).NetworkFormat") }) {
-				if k, ok := n.Common().Args[1].(*ssa.Const); ok && k.Value != nil && k.Value.String() == "true" {
-					nf = true
+			for _, sf := range []*ssa.Function{fn, scope} {
+				for _, n := range callsIn(sf, func(n string, _ *ssa.CallCommon) bool { return strings.HasSuffix(n, "/nbt.(Decoder).NetworkFormat") }) {
+					if k, ok := n.Common().Args[1].(*ssa.Const); ok && k.Value != nil && k.Value.String() == "true" {
+						nf = true
+					}
 				}
 			}
 			if !usesTag || !usesR || !nf {
